@@ -308,7 +308,8 @@ def run_C04(ctx, E):
 
 def run_C05(ctx, E):
     ctx.exhaustive = True
-    for m in ("dna", "rna", "iupac", "nucfull", "protein", "invalid"):
+    # "dnau": DNA spelled with U, double-stranded too (value clause only: tag and digest of the canonical representative)
+    for m in ("dna", "rna", "iupac", "nucfull", "dnau", "protein", "invalid"):
         stage_mc_replay(ctx, E, m, "C04_MC", "C04_MC_%s_%s.cfg" % (ctx.tier, m), cold=8 if ctx.tier == "quick" else 40)
     stage_record_trace(ctx, E, "sep", "C04_Trace", "C04_Trace.cfg", heap="8g")
 
